@@ -21,7 +21,8 @@ PID = "C04"
 
 PREFS = [None, -300, -100, -60, -50, 0, 50, 60, 100, 300]
 BNDS = [None, -300, -100, -60, 0, 60, 100, 300]
-XVALS = [-300, -200, -100, -60, -50, -10, 0, 10, 50, 60, 100, 200, 300]
+# (+-0.5 mW: "zero" means exactly zero; a tiny non-zero power inside the exclusion zone is not admissible)
+XVALS = [-300, -200, -100, -60, -50, -10, -0.0005, 0, 0.0005, 10, 50, 60, 100, 200, 300]
 
 
 def build(props, sysb):
@@ -120,11 +121,11 @@ def shard(args) -> Acc:
         a1 = [(p1, lo, hi) for lo in BNDS for hi in BNDS if lo is None or hi is None or lo <= hi]
         if tier == "quick":
             a2 = [(p, lo, hi) for p in (None, -300, -60, 0, 50, 100) for lo in (None, -100, 0) for hi in (None, 0, 100)]
-            a3 = [(p, None, None) for p in (None, -50, 300)]
+            a3 = [(p, None, None) for p in (None, -50, 300, 0.0005)]
         else:
             a2 = [(p, lo, hi) for p in PREFS for lo in (None, -100, -60, 0, 60) for hi in (None, -60, 0, 60, 100)
                   if lo is None or hi is None or lo <= hi]
-            a3 = [(p, lo, None) for p in (None, -50, 0, 10, 300) for lo in (None, -100)]
+            a3 = [(p, lo, None) for p in (None, -50, 0, 10, 300, 0.0005, -0.00025) for lo in (None, -100)]
         prio3 = 1 if tier == "quick" else 2
         for v1, v2, v3 in itertools.product(a1, a2, a3):
             props = [(3, "a", *v1), (2, "b", *v2), (prio3, "c", *v3)]
